@@ -37,18 +37,34 @@ impl LineSpec {
 
 fn emit_font(rec: &mut Rec, font: &MonoFont, mapping: &StrGlyphMapping, raw: &[u32], repl: usize, builtin: bool, name: &str, extra_probes: &[u32]) {
     let (aw, ah, atlas) = atlas_rows(font);
-    let chars: Vec<u32> = mapping.chars().map(|c| c as u32).take(5000).collect();
+    // (library calls: a panic in chars() / index() is an observation, not a harness failure)
+    let chars: Vec<u32> = match catch(|| mapping.chars().map(|c| c as u32).take(5000).collect::<Vec<u32>>()) {
+        Ok(c) => c,
+        Err(p) => {
+            rec.note("panicked_mapping_calls");
+            rec.ev("panic", json!({"msg": format!("chars(): {}", p.msg), "loc": p.loc}));
+            vec![]
+        }
+    };
     let mut probe_cs = chars.clone();
     probe_cs.extend_from_slice(&UNMAPPED);
     probe_cs.extend_from_slice(extra_probes);
     let mut seen = std::collections::BTreeSet::new();
     probe_cs.retain(|c| seen.insert(*c));
     let m = metrics_json(font);
+    let probes = match catch(|| index_probes(font, &probe_cs)) {
+        Ok(p) => p,
+        Err(p) => {
+            rec.note("panicked_mapping_calls");
+            rec.ev("panic", json!({"msg": format!("index(): {}", p.msg), "loc": p.loc}));
+            vec![]
+        }
+    };
     rec.ev(
         "font",
         json!({"name": name, "builtin": builtin as i32, "cw": m["cw"], "ch": m["ch"], "s": m["s"], "bl": m["bl"],
                "ul": m["ul"], "st": m["st"], "aw": aw, "ah": ah, "atlas": atlas, "map": raw, "repl": repl,
-               "has_chars": 1, "chars": chars, "probes": index_probes(font, &probe_cs)}),
+               "has_chars": 1, "chars": chars, "probes": probes}),
     );
 }
 
